@@ -234,6 +234,79 @@ class L4Run:
         return rec
 
 
+L4_T_PROJ = ("[issued |-> issued, oq |-> oq, unsent |-> unsent, apaused |-> apaused, connA |-> connA, connB |-> connB, "
+             "linkUp |-> linkUp, wire |-> wire, acks |-> acks, wm |-> wm, delivered |-> delivered]")
+
+
+def l4_projection(run):
+    """the real objects seen through DilationL4.tla's variables"""
+    w = run.w
+    A, B = w.sides[run.a], w.sides[run.b]
+    ob = A.m._outbound
+    seqd = (Open, Data, Close)
+    return {"issued": list(run.issued),
+            "oq": [r.seqnum for r in ob._outbound_queue],
+            "unsent": [r.seqnum for r in ob._queued_unsent],
+            "apaused": bool(ob._paused),
+            "connA": ob._connection is not None, "connB": B.m._outbound._connection is not None,
+            "linkUp": bool(w.up),
+            "wire": [r.seqnum for r in (A.conn.out if A.conn is not None and w.up else ()) if isinstance(r, seqd)],
+            "acks": [r.resp_seqnum for r in (B.conn.out if B.conn is not None and w.up else ()) if isinstance(r, Ack)],
+            "wm": B.m._inbound._highest_inbound_acked + 1,
+            "delivered": run.delivered()}
+
+
+def l4_real_enabled(run, consts, cuts):
+    w = run.w
+    A, B = w.sides[run.a], w.sides[run.b]
+    ob = A.m._outbound
+    seqd = (Open, Data, Close)
+    acts = []
+    if len(run.issued) < consts["MaxRecords"]:
+        acts += [("AppSend", len(run.issued))] * 2
+    if w.up:
+        wire = [r for r in (A.conn.out if A.conn is not None else ()) if isinstance(r, seqd)]
+        if wire and B.conn is not None and B.conn.alive:
+            acts += [("DeliverRec", wire[0].seqnum)] * 3
+        acks = [r for r in (B.conn.out if B.conn is not None else ()) if isinstance(r, Ack)]
+        if acks and A.conn is not None and A.conn.alive:
+            acts += [("DeliverAck", acks[0].resp_seqnum)] * 2
+        if cuts < consts["MaxCuts"]:
+            acts.append(("Cut", cuts + 1))
+        if consts["Backpressure"] and ob._connection is not None and ob._paused and ob._queued_unsent:
+            n = len(ob._queued_unsent)
+            acts += [("Drain", j) for j in range(1, n + 1)]
+    else:
+        if A.conn is not None and A.conn.alive:
+            acts.append(("LossA", 0))
+        if B.conn is not None and B.conn.alive:
+            acts.append(("LossB", 0))
+        if not (A.conn is not None and A.conn.alive) and not (B.conn is not None and B.conn.alive):
+            q = len(ob._outbound_queue)
+            ks = list(range(1, q + 1)) if (consts["Backpressure"] and q) else [q]
+            acts += [("Reconnect", k) for k in ks]
+    return acts
+
+
+def l4_walk(tid, consts, a, rng, nsteps=45):
+    """Code -> spec for C10: a seeded random walk over what two real Managers (Outbound, Inbound, SubChannels) over a
+    scripted L2 connection offer - application operations, deliveries of records and acks, cuts, each side noticing,
+    re-selection, the transport draining - recorded for validation against DilationL4.tla."""
+    run = L4Run(a, 2 * tid + 1, real=False, late_listen=None)     # odd seed: no echo traffic
+    lines = []
+    cuts = 0
+    for _ in range(nsteps):
+        acts = l4_real_enabled(run, consts, cuts)
+        if not acts:
+            break
+        la = rng.choice(acts)
+        run.do(la)
+        if la[0] == "Cut":
+            cuts += 1
+        lines.append({"a": list(la), "proj": l4_projection(run)})
+    return run, lines
+
+
 def model_l4_delivered(st):
     return list(st["delivered"])
 
@@ -775,6 +848,35 @@ def run(prop, tier):
             cov["witness_goals_backpressure"] = {"reached": [g_ for g_, _ in wit], "unreached": unreached}
             for g_, tr in wit:
                 behaviours.append((tr, False, "tlc-witness:" + g_))
+            # code -> spec: seeded random walks over the real objects, validated by TLC against DilationL4.tla
+            rng = random.Random(seed * 7919 + 10)
+            tv = {"walks": 0, "accepted": 0, "rejected": []}
+            for name, consts in (("walk_plain", dict(MaxRecords=8, MaxCuts=3, Window=False, Backpressure=False)),
+                                 ("walk_backpressure", dict(MaxRecords=7, MaxCuts=3, Window=False, Backpressure=True))):
+                traces, runs = {}, {}
+                for k in range(30 if quick else 300):
+                    tid += 1
+                    run_, lines = l4_walk(tid, consts, "LF"[k % 2], rng)
+                    traces[tid] = lines
+                    rec = run_.finish(tid)
+                    rec["origin"], rec["config"] = "real-walk", name
+                    records.append(rec)
+                    meta[tid] = {"schedule": run_.schedule, "direction": run_.a, "real_l2": False, "late_listen": None}
+                res, r = common.trace_validate(wd, "DilationL4", consts, traces, L4_T_PROJ, "MC_C10_trace_" + name)
+                for t, (reached, total) in sorted(res.items()):
+                    tv["walks"] += 1
+                    if reached == total:
+                        tv["accepted"] += 1
+                    else:
+                        ndrift += 1
+                        if len(tv["rejected"]) < 6:
+                            tv["rejected"].append({"tid": t, "config": name, "matched_lines": reached, "of": total,
+                                                   "next_line": traces[t][reached] if reached < total else None,
+                                                   "schedule": meta[t]["schedule"][:reached + 1]})
+            cov["trace_validation"] = dict(tv, rule="each walk = up to 45 steps chosen among what the real Managers over a scripted L2 "
+                                           "connection offer; accepted = DilationL4.tla has a behaviour with the same actions and the same "
+                                           "projection (outbound queue, unsent part, pause flag, in-flight records and acks, watermark, "
+                                           "what the receiving application saw) after every step")
             for tr, win, origin in behaviours:
                 for a in (("L",) if win else ("L", "F")):
                     tid += 1
